@@ -363,6 +363,9 @@ impl Part for WsSessions {
 pub fn ws_strategy() -> impl Strategy<Value = WsCase> {
     let other = prop_oneof![
         "[ -~]{0,12}".prop_map(Msg::Text),
+        // long texts, mostly of multi-byte characters (whatever is done with an ignored message - logged, measured, cut - is done
+        // to these too)
+        "[a-z]{0,3}[€é𝄞ш]{60,200}".prop_map(Msg::Text),
         proptest::collection::vec(any::<u8>(), 0..8).prop_map(Msg::Ping),
         proptest::collection::vec(any::<u8>(), 0..8).prop_map(Msg::Pong),
         Just(Msg::Binary(vec![])),
@@ -419,6 +422,9 @@ pub fn ws_strategy() -> impl Strategy<Value = WsCase> {
 pub fn ws_ignored_run_strategy() -> impl Strategy<Value = WsCase> {
     let other = prop_oneof![
         "[ -~]{0,12}".prop_map(Msg::Text),
+        // long texts, mostly of multi-byte characters (whatever is done with an ignored message - logged, measured, cut - is done
+        // to these too)
+        "[a-z]{0,3}[€é𝄞ш]{60,200}".prop_map(Msg::Text),
         proptest::collection::vec(any::<u8>(), 0..8).prop_map(Msg::Ping),
         proptest::collection::vec(any::<u8>(), 0..8).prop_map(Msg::Pong),
         Just(Msg::Binary(vec![])),
